@@ -159,16 +159,16 @@ func (j *judge) noPanic(fn, alg, shape string, pan string, rp replayFn) bool {
 // ------------------------------------------------------------ keys
 
 type keyset struct {
-	rsaPriv, rsaPriv2         *rsa.PrivateKey
-	ec                        map[string]*ecdsa.PrivateKey // curve name -> key
-	ec2                       map[string]*ecdsa.PrivateKey
-	edPriv, edPriv2           ed25519.PrivateKey
-	jRSAPriv, jRSAPub         jwk.Key
-	jRSAPriv2, jRSAPub2       jwk.Key
-	jEC, jECPub, jEC2Pub      map[string]jwk.Key
-	jEdPriv, jEdPub, jEd2Pub  jwk.Key
-	jXPriv, jXPub             jwk.Key
-	jOct16, jOct32            jwk.Key
+	rsaPriv, rsaPriv2        *rsa.PrivateKey
+	ec                       map[string]*ecdsa.PrivateKey // curve name -> key
+	ec2                      map[string]*ecdsa.PrivateKey
+	edPriv, edPriv2          ed25519.PrivateKey
+	jRSAPriv, jRSAPub        jwk.Key
+	jRSAPriv2, jRSAPub2      jwk.Key
+	jEC, jECPub, jEC2Pub     map[string]jwk.Key
+	jEdPriv, jEdPub, jEd2Pub jwk.Key
+	jXPriv, jXPub            jwk.Key
+	jOct16, jOct32           jwk.Key
 }
 
 var (
@@ -377,9 +377,6 @@ func TestCheck(t *testing.T) {
 		}
 		rec.Count("groups."+g.kind, 1)
 		rec.Bulk(idx, j.n, true)
-		if rec.WantSample() && j.n > 0 && (g.kind == "sym-tamper" || g.kind == "sig-tamper" || g.kind == "sym-noncetag") {
-			rec.Sample(map[string]any{"group": g.String(), "evaluations": j.n})
-		}
 	}
 }
 
